@@ -19,3 +19,39 @@ Theorem c10_released_plan_is_quiescent :
     is_terminal (cst fin OPlan) = true /\ forall o, In o (all_objs sh) -> cst fin o <> Running.
 Proof. exact resumed_release_quiescent. Qed.
 Print Assumptions c10_released_plan_is_quiescent.
+
+(* FULL STATEMENT (c10_recovery_converges), kept visible: for I = crash_image sh tr1 k of an accepted tr1 and every
+   MAXIMAL trace tr2 the resumed automaton accepts from the repair of I: tr2 ends in EvRelease fin; fin satisfies the
+   consistency rules of C04 and has nothing Running; the deferred group of every entered scope has a completed run in
+   the durable part of tr1 or in tr2; and, plugin outcomes being a function of the action alone, status fin is the
+   uninterrupted verdict; same under crash_chain.
+   What is PROVED: the release side above (for the model without flags the released plan is terminal and nothing is
+   Running, for every image and trace).  What is NOT proved: progress (every non-released state of the resumed
+   automaton has an enabled event or epsilon-move, runs are finite), the consistency and deferred clauses as an
+   invariant of the resumed automaton, and the verdict equality (it needs the schedule-independent verdict function
+   of C03/C04, another engineer's work in progress).  These clauses are evaluated by MonRecover.mon_converges on every
+   real recovery (every write prefix of every recorded run, double crashes, kills).
+   The full statement is FALSE for the code as it is - the refutation witnesses follow: one REAL recovery of /repo
+   per deviation flag (Witnesses.v) that the resumed automaton accepts with that flag only, rejects without flags, on
+   which mon_noreexec (C09) holds and mon_converges without flags is false (with that flag: true). *)
+From Coercion.Resume Require Import ResumeCheck Witnesses WitnessProofs.
+
+(* R2: an action of a check group whose run the crash interrupted is still Running when Wait returns *)
+Theorem c10_recovery_converges_refuted_R2 : refutes only_R2 witness_R2 = true.
+Proof. exact dev_R2_refutes. Qed.
+Print Assumptions c10_recovery_converges_refuted_R2.
+
+(* R3: fixBlock returned at once (a check group of the block durably Failed): the sequence in flight stays Running *)
+Theorem c10_recovery_converges_refuted_R3 : refutes only_R3 witness_R3 = true.
+Proof. exact dev_R3_refutes. Qed.
+Print Assumptions c10_recovery_converges_refuted_R3.
+
+(* R5: second crash; a sequence repaired only in memory is durably Running inside a finished block, for ever *)
+Theorem c10_recovery_converges_refuted_R5 : refutes only_R5 witness_R5 = true.
+Proof. exact dev_R5_refutes. Qed.
+Print Assumptions c10_recovery_converges_refuted_R5.
+
+(* R6: plan-level continuous group durably Failed: Recovery goes to End, the executing block stays Running *)
+Theorem c10_recovery_converges_refuted_R6 : refutes only_R6 witness_R6 = true.
+Proof. exact dev_R6_refutes. Qed.
+Print Assumptions c10_recovery_converges_refuted_R6.
